@@ -9,8 +9,28 @@ from ..refs import mc6809
 REGS = "XYUS"
 PLAIN = list(REGS)
 GRAMMAR_RIGHT = PLAIN + [r + "+" for r in REGS] + [r + "++" for r in REGS] + ["-" + r for r in REGS] + ["--" + r for r in REGS] + ["PCR"]
-PROBES_RIGHT = ["", "Z", "PC", "XY", "W", "DP", "X-", "+X", "XS", "PCRX"]
+PROBES_RIGHT = ["", "Z", "PC", "XY", "W", "DP", "X-", "+X", "XS", "PCRX", "x"]
+
+
+def probe_category(p):
+    """coarse class of a register-half spelling outside the grammar (keys must not depend on how many probes a tier tries)"""
+    import re as _re
+    if p in ("", "(empty)"):
+        return "empty"
+    if _re.fullmatch(r"[a-z]+[+-]*", p):
+        return "lower-case"
+    core = p.strip("+- ")
+    if _re.search(r"[+-]", p) and (p.count("+") > 2 or p.count("-") > 2 or ("+" in p and "-" in p) or _re.fullmatch(r"[+]+\w+|\w+[-]+", p) or core in ("PC", "PCR")):
+        return "malformed-inc/dec"
+    if core in ("PC", "DP", "CC", "A", "B", "D", "SP", "IX"):
+        return "non-index-register"
+    if len([ch for ch in core if ch in "XYUS"]) >= 2 and "PCR" not in core:
+        return "two-registers"
+    if _re.fullmatch(r"[A-Z]", core) and core not in "XYUS":
+        return "unknown-letter"
+    return "extra-characters"
 LEFT_UNIVERSE = ["", "A", "B", "D", "<val>"]
+THOROUGH_PROBES = ["x", "y", "pcr", "PC+", "-PC", "X++ ", " X", "X,", "Y--", "++X", "--X+", "X+++", "---X", "U+S", "SP", "IX", "R", "A", "B", "D", "PCR+", "-PCR", "PCRR", "XPCR"]
 
 
 def reg_form(s):
@@ -143,7 +163,10 @@ def analyse_class(ctx, cls, indirect):
     consts.update({"str": str, "int": int, "list": list})
     resolver = make_resolver(ctx.repo, fn)
     results = []
-    for right in GRAMMAR_RIGHT + PROBES_RIGHT:
+    rights = GRAMMAR_RIGHT + PROBES_RIGHT
+    if ctx.tier == "thorough":
+        rights = rights + THOROUGH_PROBES
+    for right in rights:
         for left in LEFT_KINDS:
             it = Interp(node, consts=consts, sym_attrs=("_sz",), maxpaths=cap, resolver=resolver,
                         init_env={"self.right": Const(right), "self.left": Const(left)})
@@ -433,7 +456,8 @@ def _judge(ctx, c_enc1, c_enc2, c_enc3, c_enc4, c_enc6, cls, indirect):
         if not invalid_accepted:
             c_enc4.ok(site0, "every return path is realised by a grammar-valid operand only", where0)
         for cat, probes in sorted(invalid_accepted.items()):
-            c_enc4.finding(site0, "%s:%s" % (cat, ",".join(_patterns(probes))),
+            fact = ",".join(sorted({probe_category(x) for x in probes})) if cat == "register-half-outside-grammar" else ",".join(_patterns(probes))
+            c_enc4.finding(site0, "%s:%s" % (cat, fact),
                            "%s.translate() has a return path (no raise) for operands outside the indexed grammar: %s %s"
                            % (cls, cat, sorted(probes)), where0)
     if c_enc1 is not None:
@@ -553,6 +577,8 @@ def enc5(ctx, c):
 
     regs = ["A", "B", "D", "X", "Y", "U", "S", "CC", "DP", "PC"]
     probes = ["Z", "W", "", "x", "a", "d", "pc", "u", "s", " X", "X "]
+    if ctx.tier == "thorough":
+        probes += ["cc", "dp", "b", "y", "AB", "XY", "PCR", "P", "C", "SP", "IX", "A ", " A", "CC ", "0", "#", "$10", "DD", "PCC"]
     n = 0
     try:
         for m in ("PSHS", "PSHU", "PULS", "PULU"):
